@@ -21,8 +21,8 @@ theorem TLoc_transfer {σ σ' : St} {y : Th} (L : TLoc σ y)
     (hnila : y.pc.addPC = true → σ.cl y.ns = [] → σ'.cl y.ns = [])
     (hest : σ.est y.s = true → σ'.est y.s = true)
     (hsing : y.pc ≠ .idle → σ.cl y.s = [y.g] → σ'.cl y.s = [y.g]) : TLoc σ' y := by
-  obtain ⟨l1, l2, l3, l4, l5, l6, ls, l7, l8, l9, l10, l11, l12, l13, l14, l15, l16, l17, l18, l19, l20, l22⟩ := L
-  refine ⟨?_, l2, ?_, l4, ?_, l6, ?_, ?_, ?_, ?_, ?_, ?_, ?_, ?_, ?_, ?_, ?_, ?_, ?_, ?_, ?_, l22⟩
+  obtain ⟨l1, l2, l3, l4, l5, l6, ls, l7, l8, l9, l10, l11, l12, l13, l14, l15, l16, l17, l18, l19, l20, l22, l23⟩ := L
+  refine ⟨?_, l2, ?_, l4, ?_, l6, ?_, ?_, ?_, ?_, ?_, ?_, ?_, ?_, ?_, ?_, ?_, ?_, ?_, ?_, ?_, l22, ?_⟩
   · intro h; rw [hg h]; exact l1 h
   · intro h h2; rw [hg h]; exact l3 h h2
   · intro h h2
@@ -81,6 +81,9 @@ theorem TLoc_transfer {σ σ' : St} {y : Th} (L : TLoc σ y)
     rw [hng hc]
     obtain ⟨a, b, c, d, e⟩ := l20 h h2
     exact ⟨a, b, c, fun hs => hslng hc (d hs), fun hs => hclng hc _ (e hs)⟩
+  · intro h
+    have hi : y.pc ≠ .idle := by intro e; simp [Th.sgOn, e, PC.sgFlag] at h
+    exact hsing hi (l23 h)
 
 /-- same table: same facts -/
 theorem TLoc_congr {σ σ' : St} {y : Th} (h : σ'.htab = σ.htab) (hest : σ.est y.s = true → σ'.est y.s = true)
